@@ -328,6 +328,16 @@ def gen_config(rng):
                 e["bank_code"] = rng.choice(SHAPES[cc] + [""] + (MISSHAPEN.get(cc, []) if rng.random() < 0.3 else []))
                 e["primary"] = rng.random() < 0.5
             entries.append(e)
+        if not v2 and entries and rng.random() < 0.6:
+            # crowded keys: three to six rows for one (country, code), primary flags in any pattern (primary, non-primary, primary,
+            # ...) and different BICs - the bundled data have at most a few rows per key, in a handful of patterns
+            for _ in range(rng.randrange(1, 3)):
+                cc = rng.choice(list(SHAPES))
+                code = rng.choice(SHAPES[cc])
+                pool = [b for b in BIC_POOL[cc] if b]
+                for _ in range(rng.randrange(3, 7)):
+                    entries.append({"country_code": cc, "name": f"Bank {rng.randrange(100)}", "short_name": f"B{rng.randrange(100)}",
+                                    "bic": rng.choice(pool), "bank_code": code, "primary": rng.random() < 0.5})
         if v2:
             files[f"{li}bank.v2.json"] = {"expand_from": "bank_codes", "expand_into": "bank_code", "entries": entries}
         else:
